@@ -296,6 +296,7 @@ type SX struct {
 	addrTaken        map[types.Object]bool
 	loopID           int
 	loopLabel        map[ast.Stmt]string   // labels of labelled loops
+	havocOnly        map[string]bool       // havocStruct: restrict to these fields (set by havocStructFields)
 	fieldVars        map[string]*types.Var // scalar replacement: (struct made on this path, field) -> pseudo local
 	fieldInits       map[*types.Var]Term   // its initial value
 	instArgs         []types.Type          // type arguments of the generic function being inlined through a function value
@@ -346,11 +347,16 @@ func (x *SX) Run(fd *ast.FuncDecl) []*Path {
 // guardedForever: `for { if G { break }; body; i-- }` is `for ; !G; i-- { body }`. When every iteration path starts by deciding the same
 // condition, and deciding it one way means leaving by break at once (nothing done, nothing assigned), that condition becomes the loop
 // condition; a counter every continuing iteration advances by the same constant becomes the (synthesised) post statement.
-func (x *SX) guardedForever(rec *LoopRec) {
+func (x *SX) guardedForever(rec *LoopRec, hasPost bool) {
 	if len(rec.Iter) < 2 {
 		return
 	}
-	pre := x.preStep(rec)
+	// with a written post statement (`for i := 0; ; i += size { if i >= n { break }; … }`) only the guard moves into the header:
+	// leaving by the guard skips the post statement, as a false condition does
+	var pre preStepRes
+	if !hasPost {
+		pre = x.preStep(rec)
+	}
 	defer func() {
 		// only when the guard became the loop condition do the pre-steps read as post steps; otherwise the loop stays as written
 		if rec.CondT != nil {
@@ -424,7 +430,9 @@ func (x *SX) guardedForever(rec *LoopRec) {
 	if leave.End == "return" {
 		rec.Exhaust = leave
 	}
-	x.synthPost(rec)
+	if !hasPost {
+		x.synthPost(rec)
+	}
 }
 
 // preStep: `for { i--; if i < 0 { break }; … i … }` — every iteration begins by moving a counter by the same constant and mentions it
@@ -505,6 +513,23 @@ func (x *SX) preStep(rec *LoopRec) preStepRes {
 		res.steps[o] = d
 	}
 	return res
+}
+
+// simplePost: the post statement only updates local variables named directly (i++, i += size, i, left = i+1, left-1).
+func simplePost(s ast.Stmt) bool {
+	switch v := s.(type) {
+	case *ast.IncDecStmt:
+		_, isID := unparen(v.X).(*ast.Ident)
+		return isID
+	case *ast.AssignStmt:
+		for _, l := range v.Lhs {
+			if _, isID := unparen(l).(*ast.Ident); !isID {
+				return false
+			}
+		}
+		return true
+	}
+	return false
 }
 
 // synthPost: a loop without a post statement whose continuing iterations all advance a counter by the same constant (`for i >= 0 { …;
@@ -676,6 +701,90 @@ func (x *SX) localStruct(base Term) (structObj, bool) {
 	return so, true
 }
 
+// fieldsAssignedBy: the fields of its receiver the method f assigns (`ego.f = …`, `ego.f++`), when the receiver is used for nothing
+// but reading and assigning fields directly (`ego.m[k] = v` writes an element of what the field holds, not the field); nil = any field
+// may be assigned (the receiver is handed on, a method is called on it, a field's address is taken, the declaration is not at hand).
+func (x *SX) fieldsAssignedBy(f *types.Func) map[string]bool {
+	fd := x.c.DeclOf(f)
+	if fd == nil || fd.Body == nil || fd.Recv == nil || len(fd.Recv.List) != 1 || len(fd.Recv.List[0].Names) != 1 {
+		return nil
+	}
+	recv := x.c.Info.Defs[fd.Recv.List[0].Names[0]]
+	if recv == nil {
+		return nil
+	}
+	out := map[string]bool{}
+	all := false
+	var stack []ast.Node
+	ast.Inspect(fd.Body, func(n ast.Node) bool {
+		if n == nil {
+			stack = stack[:len(stack)-1]
+			return true
+		}
+		stack = append(stack, n)
+		id, ok := n.(*ast.Ident)
+		if !ok || x.c.Info.Uses[id] != recv {
+			return true
+		}
+		// the receiver must be the operand of a field selection …
+		if len(stack) < 2 {
+			all = true
+			return true
+		}
+		sel, isSel := stack[len(stack)-2].(*ast.SelectorExpr)
+		if !isSel || sel.X != ast.Expr(id) {
+			all = true
+			return true
+		}
+		if s := x.c.Info.Selections[sel]; s == nil || s.Kind() != types.FieldVal {
+			all = true
+			return true
+		}
+		// … which is read, or assigned as a whole
+		if len(stack) >= 3 {
+			switch p := stack[len(stack)-3].(type) {
+			case *ast.AssignStmt:
+				for _, l := range p.Lhs {
+					if l == ast.Expr(sel) {
+						out[sel.Sel.Name] = true
+					}
+				}
+			case *ast.IncDecStmt:
+				if p.X == ast.Expr(sel) {
+					out[sel.Sel.Name] = true
+				}
+			case *ast.UnaryExpr:
+				if p.Op == token.AND {
+					all = true
+				}
+			case *ast.SelectorExpr:
+				// ego.f.g: a field of a field, or a method on the field's value (a builder): the field itself may change
+				out[sel.Sel.Name] = true
+			case *ast.RangeStmt:
+				if p.Key == ast.Expr(sel) || p.Value == ast.Expr(sel) {
+					out[sel.Sel.Name] = true
+				}
+			}
+		}
+		return true
+	})
+	if all {
+		return nil
+	}
+	return out
+}
+
+// havocStructFields: as havocStruct, for the named fields only (nil: all).
+func (x *SX) havocStructFields(base Term, st *sxState, only map[string]bool) {
+	if only == nil {
+		x.havocStruct(base, st)
+		return
+	}
+	x.havocOnly = only
+	x.havocStruct(base, st)
+	x.havocOnly = nil
+}
+
 // havocStruct: every field of the scalar-replaced struct base denotes gets an unknown value.
 func (x *SX) havocStruct(base Term, st *sxState) {
 	so, ok := x.localStruct(base)
@@ -715,6 +824,9 @@ func (x *SX) havocStruct(base Term, st *sxState) {
 	}
 	x.loopID++
 	for i := 0; i < stt.NumFields(); i++ {
+		if x.havocOnly != nil && !x.havocOnly[stt.Field(i).Name()] {
+			continue
+		}
 		v := x.fieldVar(so, stt.Field(i))
 		st.env[v] = TLoop{v, x.loopID}
 	}
@@ -1741,11 +1853,33 @@ func (x *SX) forOnce(v *ast.ForStmt, oc outcome, id int, bump int, extra []types
 	if v.Cond != nil {
 		rec.CondT = simplify(x.eval(v.Cond, iter))
 	}
-	rec.Iter = x.finish(x.block(v.Body.List, iter))
+	bodyOuts := x.block(v.Body.List, iter)
+	postInlined := false
+	if v.Post != nil && !simplePost(v.Post) {
+		// a post statement that is not a plain update of local counters (`cur.advance()`, `it.pos += it.size`): it is executed at the
+		// end of every round that goes on — `for c; p { b }` is `for c { b; p }` with `continue` running p as well
+		own := x.loopLabel[v]
+		var next []outcome
+		for _, o := range bodyOuts {
+			if o.kind == "" || o.kind == "continue" || (own != "" && o.kind == "continue:"+own) {
+				for _, po := range x.stmt(v.Post, o.st) {
+					if po.kind == "" {
+						po.kind = o.kind
+					}
+					next = append(next, po)
+				}
+				continue
+			}
+			next = append(next, o)
+		}
+		bodyOuts, postInlined = next, true
+		rec.Post = nil
+	}
+	rec.Iter = x.finish(bodyOuts)
 	x.resolveLabels(rec, v)
-	if v.Cond == nil && v.Post == nil {
-		x.guardedForever(rec)
-	} else if v.Post == nil {
+	if v.Cond == nil {
+		x.guardedForever(rec, v.Post != nil && !postInlined)
+	} else if v.Post == nil || postInlined {
 		x.synthPost(rec)
 	}
 	after := head
@@ -1817,6 +1951,20 @@ func (x *SX) rangeStmt(v *ast.RangeStmt, st *sxState) []outcome {
 // dispatchTable: the ranged value is a literal array/slice of at most 8 function values written out element by element (a table of
 // alternatives tried in order). Such a loop is unrolled: each round runs the body with the element bound to that literal.
 func (x *SX) dispatchTable(lit TLit, v *ast.RangeStmt) bool {
+	if lit.Node == nil && lit.Fresh > 0 && lit.Type != nil && len(lit.Elts) <= 8 && x.loopLabel[v] == "" {
+		// the pack of a variadic parameter of an inlined helper (`item(chunks ...string)` called with three strings): its elements are
+		// the arguments written at the call; the range over it is unrolled too (zero arguments: no round)
+		if _, isSlice := lit.Type.Underlying().(*types.Slice); isSlice {
+			for _, e := range []ast.Expr{v.Key, v.Value} {
+				if e != nil {
+					if _, isID := e.(*ast.Ident); !isID {
+						return false
+					}
+				}
+			}
+			return true
+		}
+	}
 	cl, ok := lit.Node.(*ast.CompositeLit)
 	if !ok || lit.Type == nil || len(lit.Elts) == 0 || len(lit.Elts) > 8 || len(lit.Elts) != len(cl.Elts) || x.loopLabel[v] != "" {
 		return false
@@ -2314,6 +2462,18 @@ func (x *SX) call(call *ast.CallExpr, st *sxState, nres int) []evalOut {
 	c := x.c
 	// conversion
 	if tv, ok := c.Info.Types[call.Fun]; ok && tv.IsType() && len(call.Args) == 1 {
+		// a conversion between slice / map / pointer / function types with the same underlying type (fieldSlice(ego.val), []field(s))
+		// hands on the very same value: same backing array, same map
+		local := true // not for foreign named types: sort.IntSlice(s) picks the methods sort.Sort will call
+		if nt, isNamed := tv.Type.(*types.Named); isNamed && nt.Obj().Pkg() != x.c.Types {
+			local = false
+		}
+		if at := x.c.typeOf(call.Args[0]); local && at != nil && tv.Type != nil && types.Identical(at.Underlying(), tv.Type.Underlying()) {
+			switch at.Underlying().(type) {
+			case *types.Slice, *types.Map, *types.Pointer, *types.Signature, *types.Chan:
+				return x.evalFork(call.Args[0], st)
+			}
+		}
 		return x.map1(call.Args[0], st, func(t Term, st *sxState) Term { return simplify(TConv{tv.Type, t}) })
 	}
 	// builtin
@@ -2452,7 +2612,7 @@ func (x *SX) call(call *ast.CallExpr, st *sxState, nres int) []evalOut {
 			// are unknown afterwards
 			for _, a := range args {
 				if mv, ok := a.(TCall); ok && mv.Name == "methodvalue" && mv.Epoch == -1 && mv.Recv != nil {
-					x.havocStruct(mv.Recv, ao.st)
+					x.havocStructFields(mv.Recv, ao.st, x.fieldsAssignedBy(mv.Fun))
 				}
 				// the address of such a struct handed to a callee that is not followed: the callee may write its fields
 				if ad, ok := a.(TAddr); ok && !x.pureCall(fun) {
